@@ -12,10 +12,12 @@ Print Assumptions C18_capture.
 
 (* delay in [0, 64 s - 2^-18 s): the estimate is the send instant within one field quantum
    (3815 ns) plus the 1 ns of the conversion, across 64 s wraps of the 24-bit field *)
+(* only the SEND instant is restricted to the era: a packet sent in its last 64 seconds may arrive after
+   its end, where toNtpTime wraps modulo 2^64 - Estimate looks at differences only and is not disturbed *)
 Theorem C18_estimate : forall send delay,
-  in_era send -> in_era (send + delay) -> 0 <= delay < max_delay ->
+  in_era send -> 0 <= delay < max_delay ->
   0 <= send - estimate (new_abs_send_time send) (send + delay) <= 3816.
-Proof. exact estimate_recovers. Qed.
+Proof. exact estimate_recovers_any. Qed.
 Print Assumptions C18_estimate.
 
 Theorem C18_offset : forall u d, - offset_limit < d < offset_limit ->
@@ -25,6 +27,15 @@ Proof. exact offset_roundtrip. Qed.
 Print Assumptions C18_offset.
 
 (* non-vacuity: an instant one nanosecond before a 64 s wrap, received 63.9 s later *)
+(* sent in the last nanosecond of the era (2036-02-07 06:28:15.999999999), received 63.9 s later *)
+Example C18_estimate_past_era_end :
+  in_era 2085978495999999999 /\ ~ in_era (2085978495999999999 + 63900000000) /\
+  estimate (new_abs_send_time 2085978495999999999) (2085978495999999999 + 63900000000) = 2085978495999996185.
+Proof.
+  unfold in_era, ntp_epoch_offset. split; [split; [vm_compute; congruence|vm_compute; reflexivity]|].
+  split; [intros [_ H]; vm_compute in H; discriminate H|vm_compute; reflexivity].
+Qed.
+
 Example C18_nonvacuous :
   in_era 1700000063999999999 /\ in_era (1700000063999999999 + 63900000000) /\
   estimate (new_abs_send_time 1700000063999999999) (1700000063999999999 + 63900000000) = 1700000063999996185.
